@@ -95,6 +95,48 @@ package model
 //@ extern func (node *GoValueNode) IdentifiedAs() (s)
 //@   nopanic
 
+// ---- JSON facts (C04): the three setters of a JSON node write exactly the addressed slot with exactly the given value ----
+// A JSON object is a map[string]interface{}, a JSON array a []interface{}: no numeric conversion applies. Wrong node kinds and
+// indexes out of range are not refused by these setters but panic inside reflect; the panic is contained by the action's
+// recover (C14), and nothing is written before it (panic_ensures).
+//@ extern pure func rv_str(s string) RV
+//@ func (vn *JSONValueNode) IsMap() (r)
+//@   serves C04
+//@   requires vn != nil
+//@   nopanic
+//@   modifies
+//@   ensures r == (vn.data.kind == 21)
+//@ func (vn *JSONValueNode) IsObject() (r)
+//@   serves C04
+//@   requires vn != nil
+//@   nopanic
+//@   modifies
+//@   ensures r == (vn.data.kind == 21)
+//@ func (vn *JSONValueNode) SetObjectValueByField(field, newValue) (err)
+//@   serves C04
+//@   requires vn != nil
+//@   panics_only_if vn.data.kind == 21
+//@   panic_ensures $loc == old($loc)
+//@   modifies $loc
+//@   ensures[C04] slot: err == nil ==> vn.data.kind == 21 && $loc == store(old($loc), rv_mapslot(vn.data, rv_str(field)), newValue)
+//@   ensures[C04] erroruntouched: err != nil ==> $loc == old($loc)
+//@ func (vn *JSONValueNode) SetMapValueAt(index, newValue) (err)
+//@   serves C04
+//@   requires vn != nil
+//@   panics_only_if vn.data.kind == 21
+//@   panic_ensures $loc == old($loc)
+//@   modifies $loc
+//@   ensures[C04] slot: err == nil ==> vn.data.kind == 21 && $loc == store(old($loc), rv_mapslot(vn.data, index), newValue)
+//@   ensures[C04] erroruntouched: err != nil ==> $loc == old($loc)
+//@ func (vn *JSONValueNode) SetArrayValueAt(index, value) (err)
+//@   serves C04
+//@   requires vn != nil
+//@   panics_only_if true
+//@   panic_ensures $loc == old($loc)
+//@   modifies $loc
+//@   ensures[C04] slot: err == nil ==> $loc == store(old($loc), rv_index(vn.data, index).id, rv_assign(rv_index(vn.data, index), value))
+//@   ensures[C04] erroruntouched: err != nil ==> $loc == old($loc)
+
 // ---- JSON fact loader (C20): decoding is opaque (T-JSON); wrapping the decoded value does not panic ----
 //@ func NewJSONValueNode(JSONString, identifiedAs) (vn, err)
 //@   serves C20
